@@ -25,7 +25,9 @@ def run(ctx):
     res = tlc.run('MC_Parser', MC_CFG % (5 if q else 7, 0), coverage=not q, timeout=3000)
     ctx.add_mc('MC_Parser(MaxLen=%d)' % (5 if q else 7), res)
 
-    envs = [lang.LeafEnv(lang.LeafEnv.ALL, off) for off in range(6)] + [pc.ROLE_ENV]
+    lang.install_http_stub()
+    envs = [lang.LeafEnv(lang.LeafEnv.WITH_HTTP, off) for off in range(8)][:6] + [pc.ROLE_ENV]
+    envs[1] = lang.LeafEnv(('http', 'role', 'https', 'rule'), 0)
     lenv = envs[0]
     cases = []
     # every sentence up to the bound (rejected inputs print as "!", also checked)
@@ -33,6 +35,10 @@ def run(ctx):
     for toks in lang.all_token_seqs(n_ex):
         for le in (pc.ROLE_ENV, ctx.rng.choice(envs[:6])):
             cases.append(pc.record_text(toks, lang.render(toks, None, le.text), 'parse', 'c15', le))
+    # short sequences with quoted strings and colon-less words too: whatever the rule is parsed to
+    # prints as something that parses back to the same thing
+    for toks in lang.all_token_seqs(2 if q else 3, (lang.LP, lang.RP, lang.AND, lang.OR, lang.NOT, lang.STR, lang.BAD_TOK, lang.LEAF0)):
+        cases.append(pc.record_text(toks, lang.render(toks, ctx.rng), ctx.rng.choice(['parse', 'load', 'enforce']), 'c15'))
     n_exh = len(cases)
     trees = []
     for i in range(400 if q else 10000):
